@@ -232,6 +232,26 @@ DESCR = {
  "C09-N": ("member list pre-sized with count(newline) - count('#')", "more '#' characters than newlines in the input"),
  "C19-N": ("parseAddress takes the mutex; two refusal returns never unlock", "a refused address (other protocol, empty unix path), then any further Bind/Shutdown on the object"),
  "C20-N": ("fd := 3 as default, an inner fd := -1 in the names block shadows it", "LISTEN_FDS > 1 with varlink not in first position"),
+ "C01-O": ("decoded request header recycled through a sync.Pool; a failed decode hands the entry back uncleared", "a frame that is valid JSON, fails to decode as a call and carries oneway/more, then a well-formed call without that flag on any connection"),
+ "C02-O": ("frames larger than the reader buffer assembled in a pooled buffer that is reset on the success path only", "a read that fails inside a frame already longer than 4096 bytes, then a frame above 4096 bytes on any connection"),
+ "C03-O": ("bridge process reaped by a background cmd.Wait as soon as it exits (closes the stdout pipe)", "a bridge that exits right after writing its replies, before the client has read them"),
+ "C04-O": ("calls look interfaces up in a read-only copy of the table taken when the listener is set", "RegisterInterface between Bind and DoListen, then a call to that interface"),
+ "C05-O": ("pending doc comment reset only at an empty line, member readers take-and-clear it", "a comment inside a member (struct body, between name and list, around '->') followed by the next member without an empty line"),
+ "C06-O": ("readTypeName rejects names that do not start with A-Z but leaves the cursor behind the word", "a digit-initial word glued to the '(' of a struct or enum in type position: accepted, word dropped"),
+ "C07-O": ("reply helper / interface parameters named plainly (name instead of name_) unless keyword or generator local", "an output or error field named like a Go type the helper body spells (string, bool, int64, float64, json), or fields c and c_"),
+ "C08-O": ("in/out structs of a generated Send stub declared once outside the receive closure", "a more call whose later replies omit optionals or carry maps/slices: stale values, maps merged, earlier results overwritten"),
+ "C09-O": ("name characters classified through a [128]uint8 table indexed after guarding only char < 0", "a byte 0x80..0xFF where a type name is tried or right behind a field/type/method/error name"),
+ "C10-O": ("org.varlink.service dispatcher holds the service mutex (defer) around the helpers, which also write the reply", "a client that pipelines introspection calls and does not read until the socket buffers are full"),
+ "C11-O": ("ReadBytes returns an unterminated final token with nil error at EOF; receive trims the NUL with TrimSuffix", "the server dying inside a reply frame (success right before the NUL, SyntaxError elsewhere)"),
+ "C12-O": ("replies encoded into pooled buffers that are reset after a successful write only", "a reply whose write fails (client hung up), then a reply on any connection that draws the same buffer"),
+ "C13-O": ("placeholder dispatcher of org.varlink.service dropped; NewService seeds name and description directly", "RegisterInterface of an object named org.varlink.service: accepted, listed twice, description replaced"),
+ "C14-O": ("'listener closed' flag set by Shutdown, cleared by teardown only", "Bind, Shutdown before any serving call, Bind again, DoListen, Shutdown: the new listener stays open"),
+ "C15-O": ("timeout remembered in a Service field (non-zero values only); the last handler to exit re-arms the accept deadline from it", "one object served with a timeout and later without: a connection that comes and goes makes the untimed period time out"),
+ "C16-O": ("RegisterInterface sorts names[1:] in place; getInfo hands the live slice to the encoder", "a registration accepted after Shutdown while a lingering connection calls GetInfo; >= 3 names, new name sorting first"),
+ "C17-O": ("Read/ReadBytes served inline when something is buffered ('a whole frame is buffered' assumed)", "a complete frame plus the start of the next in one chunk, the rest late, the context of that receive ends"),
+ "C18-O": ("after a frame longer than the buffer ReadBytes switches to a bigger reader over MultiReader(leftover, conn); Read bypasses the reader when Buffered()==0", "a frame above 4096 bytes with the first upgraded bytes in the same segment, then a raw Read"),
+ "C19-O": ("second Bind refused while an endpoint is stored; parseAddress stores it, only Shutdown releases it", "a valid address whose listen() fails (missing directory, port taken), then another Bind/Listen on the object"),
+ "C20-O": ("os.File of an inherited descriptor that is not a socket closed and forgotten", "selected descriptor is a pipe or file and the process binds a second service: it serves the first one's socket"),
 }
 
 conf = {}
@@ -275,7 +295,7 @@ for pid in sorted(props):
                 shutil.copy(os.path.join(out, extra), os.path.join(d, extra))
         if os.path.isdir(os.path.join(out, f"{pid}_{v}_demo")):
             shutil.copytree(os.path.join(out, f"{pid}_{v}_demo"), os.path.join(d, "demo")); demo = "demo/run.sh"
-        for nf in (f"{pid}_notes.md", f"{pid}_notes2.md", f"{pid}_notes3.md", f"{pid}_notes4.md", f"{pid}_notes5.md", f"{pid}_notes6.md", f"{pid}_notes7.md", f"{pid}_notes8.md", f"{pid}_notes9.md"):
+        for nf in (f"{pid}_notes.md", f"{pid}_notes2.md", f"{pid}_notes3.md", f"{pid}_notes4.md", f"{pid}_notes5.md", f"{pid}_notes6.md", f"{pid}_notes7.md", f"{pid}_notes8.md", f"{pid}_notes9.md", f"{pid}_{v}_notes.md"):
             if os.path.exists(os.path.join(out, nf)):
                 shutil.copy(os.path.join(out, nf), os.path.join(d, "notes.md"))
         what, needs = DESCR.get(key, ("see notes.md", "see notes.md"))
